@@ -1397,6 +1397,17 @@ class Macro:
         """
         return -1
 
+    def __is_operand(self, idx):
+        """
+        Returns whether the token at position idx of the replacement list
+        is preceded by # or ##, or followed by ##.
+        """
+        if idx > 0 and self.replacement[idx - 1].token in ["#", "##"]:
+            return True
+        if idx + 1 < len(self.replacement):
+            return self.replacement[idx + 1].token == "##"
+        return False
+
     def preproc_replacement(self):
         """
         Preprocess macroexpansion of ## where it doesn't abut arguments.
@@ -1437,7 +1448,9 @@ class Macro:
                     self.has_strcat = True
             elif isinstance(tok, Identifier):
                 arg_idx = self.which_arg(tok.token)
-                if arg_idx != -1:
+                # An argument is macro-expanded before substitution unless
+                # the parameter is an operand of # or ## (C11 6.10.3.1p1).
+                if arg_idx != -1 and not self.__is_operand(idx):
                     self.arg_needs_expansion[arg_idx] = True
             idx += 1
             res_tokens.append(tok)
